@@ -271,6 +271,38 @@ def run(ctx):
             ctx.count("relations/absolute_zero")
             if abs(oracle.F(got) - from_kelvin(b, Fraction(0))) > Fraction(1, 10**6):
                 ctx.violation("C10:absolute-zero", f"absolute zero {core.sf(z)} {a} -> {b} = {got!r}", {})
+    # the program had a coarse decimal context in force when it imported the library (4-6 digits, rounding down or half-even),
+    # and may or may not have put the default back: the scales are what their definitions say all the same
+    from .. import synth
+    specs, asked = [], []
+    for prec, rounding, restore in ((5, None, True), (4, None, True), (5, "ROUND_DOWN", False), (6, "ROUND_UP", True), (3, None, True)):
+        ops = []
+        for a in SCALES:
+            for b in SCALES:
+                if a != b:
+                    for mag in (0, 100, -40, 451.5):
+                        ops.append(["convert", ["f", float(mag).hex()], ["u", a], ["u", b]])
+                        asked.append((a, b, mag))
+        specs.append({"modules": ["si", "us"], "decimal_context_at_import": {"prec": prec, "rounding": rounding, "restore_after_import": restore}, "ops": ops})
+    logs = synth.run_specs(specs, jobs=5, timeout=120)
+    per = len(asked) // len(specs)
+    for si_, (spec_, log) in enumerate(zip(specs, logs)):
+        if "inconclusive" in log or log.get("fatal"):
+            ctx.count("imports_under_a_coarse_context_inconclusive")
+            continue
+        ctx.count("imports_under_a_coarse_decimal_context")
+        for (a, b, mag), r in zip(asked[si_ * per:(si_ + 1) * per], log["results"]):
+            ctx.count("evaluations")
+            ctx.count("conversions_after_import_under_a_coarse_context")
+            want = from_kelvin(b, to_kelvin(a, oracle.F(mag)))
+            if "ok" not in r:
+                ctx.violation(f"C10:raised-after-import-under-a-coarse-decimal-context:{r.get('raise')}", f"{mag} {a} -> {b} raised {r.get('raise')}: {r.get('msg')}",
+                              {"context": spec_["decimal_context_at_import"]})
+                continue
+            got = oracle.F(model.dec_mag(r["ok"]["mag"]))
+            if abs(got - want) > Fraction(1, 10**9) * max(abs(want), 500):
+                ctx.violation("C10:wrong-after-import-under-a-coarse-decimal-context", f"{mag} {a} -> {b} = {core.sf(got)!r} in a process that imported the library under "
+                              f"{spec_['decimal_context_at_import']}; the definitions give {core.sf(want)!r}", {"context": spec_["decimal_context_at_import"], "from": a, "to": b})
     # the command line (`measured 300 K`) lists what a quantity is equivalent to: the temperatures it prints are conversions
     # among the four scales like any other, shown to a user
     try:
